@@ -75,6 +75,19 @@ fn malformed(kind: &str) -> Item {
             b[n - 1] = 0xCD;
             b
         }
+        // the same on every other kind of frame (no kind is taken on trust)
+        "bad-frame-end-body" | "bad-frame-end-empty-body" | "bad-frame-end-header" | "bad-frame-end-heartbeat" | "bad-frame-end-deliver" => {
+            let mut b = match kind {
+                "bad-frame-end-body" => body(1, 5).bytes,
+                "bad-frame-end-empty-body" => body(1, 0).bytes,
+                "bad-frame-end-header" => header(1, 5, true).bytes,
+                "bad-frame-end-heartbeat" => heartbeat().bytes,
+                _ => deliver(1).bytes,
+            };
+            let n = b.len();
+            b[n - 1] = 0xCF;
+            b
+        }
         "unknown-type" => vec![9, 0, 1, 0, 0, 0, 2, 1, 2, 0xCE],
         "bad-method-payload" => vec![1, 0, 1, 0, 0, 0, 4, 0xFF, 0xFF, 0, 0, 0xCE],
         "size-too-small" => {
@@ -327,7 +340,7 @@ pub fn streams() -> Vec<Stream> {
     let mk = |name: &str, items: Vec<Item>, eof: bool| Stream { name: name.to_string(), items, eof, truncate_at: None };
     v.push(mk("small-mix", vec![heartbeat(), open_ok(1), deliver(1), header(1, 3, true), body(1, 3), blocked(), heartbeat()], false));
     v.push(mk("small-mix-eof", vec![heartbeat(), deliver(2), header(2, 1, false), body(2, 1)], true));
-    for k in ["bad-frame-end", "unknown-type", "bad-method-payload", "size-too-small", "truncated-header-payload"] {
+    for k in ["bad-frame-end", "unknown-type", "bad-method-payload", "size-too-small", "truncated-header-payload", "bad-frame-end-body", "bad-frame-end-empty-body", "bad-frame-end-header", "bad-frame-end-heartbeat", "bad-frame-end-deliver"] {
         v.push(mk(&format!("malformed-{}", k), vec![open_ok(1), heartbeat(), malformed(k), heartbeat(), open_ok(2)], false));
         v.push(mk(&format!("malformed-first-{}", k), vec![malformed(k), heartbeat()], true));
     }
